@@ -10,7 +10,7 @@ Model: `GS.RespLife`.  A transaction executed INSIDE a manager step (`newRequest
 process is parked (`State.park`) and handles no mailbox message of ANY peer until the grant.
 
 -- FULL STATEMENT (false, see `counterexample`):
---   theorem responder : Reachable limit s → (peer A stalled or at its memory limit in s) →
+--   theorem responder : Reachable c s → (peer A stalled or at its memory limit in s) →
 --     every mailbox message from a peer B ≠ A is eventually handled and B's requests progress,
 --     on every weakly fair execution from s in which A stays stalled.
 
@@ -37,14 +37,14 @@ def NoExtStep (s : State) : Action → Prop
     | _, _ => True
   | _ => True
 
-inductive ReachableNE (limit : Nat) : State → Prop
-  | init : ReachableNE limit (init limit)
-  | step {s s' a} : ReachableNE limit s → NoExtStep s a → step s a = some s' → ReachableNE limit s'
+inductive ReachableNE (c : Cfg) : State → Prop
+  | init : ReachableNE c (init c)
+  | step {s s' a} : ReachableNE c s → NoExtStep s a → step s a = some s' → ReachableNE c s'
 
 /-- **C25.partial** (safety core): when all manager-side transactions have size 0 — no extension data
     from request hooks, from update hooks of paused responses, or passed to UnpauseResponse /
     UpdateResponse — the response manager goroutine never parks in a memory reservation. -/
-theorem partial_never_parks {limit : Nat} {s : State} (h : ReachableNE limit s) : s.park = none := by
+theorem partial_never_parks {c : Cfg} {s : State} (h : ReachableNE c s) : s.park = none := by
   induction h with
   | init => rfl
   | @step s s' a _ hne hs ih =>
@@ -77,7 +77,7 @@ def stallScript : List Action :=
    .recv 0 (.new 1 cfgExt), .mgr,    -- request hook sends 17 bytes: the MANAGER waits behind it
    .recv 1 (.new 2 (cfgA 2))]        -- peer 1's request: stays in the mailbox
 
-def stalled : State := run (init 100) stallScript
+def stalled : State := run (init { limit := 100 }) stallScript
 
 /-- internal (fair) actions: everything except what the environment does (`recv`, `api`, `net`, `primer`) -/
 def Internal : Action → Prop
@@ -179,7 +179,7 @@ theorem pubStep_none (s : State) (p : Peer) (h : s.mqs.all (fun q => q.pubQ.isEm
     thing that can ever release the manager is the environment action `net 0 _` (peer 0's send
     completing): no internal action of any process is enabled, or it changes nothing. -/
 theorem counterexample :
-    ReachableFresh 100 stalled ∧
+    ReachableFresh { limit := 100 } stalled ∧
     (∃ pk, stalled.park = some pk ∧ pk.peer = 0 ∧ pk.granted = false) ∧
     Msg.processRequests 1 (.new 2 (cfgA 2)) ∈ stalled.mailbox ∧
     (∀ a, Internal a → step stalled a = none ∨ step stalled a = some stalled) := by
@@ -198,6 +198,113 @@ theorem counterexample :
     | api c => exact absurd ha (by simp [Internal])
     | net p ok => exact absurd ha (by simp [Internal])
     | primer p => exact absurd ha (by simp [Internal])
+
+-- ------------------------------------------------------------------ worker-pool exhaustion
+theorem popTask_none_pool (s : State) (p : Peer) (id : Id)
+    (h : (s.nWorkers != 0 && decide (s.nWorkers ≤ liveWorkers s)) = true) : popTask s p id = none := by
+  unfold popTask
+  simp only
+  have h1 : s.nWorkers ≠ 0 ∧ s.nWorkers ≤ liveWorkers s := by simpa using h
+  have : (s.nWorkers == 0 || decide (liveWorkers s < s.nWorkers)) = false := by
+    simp only [Bool.or_eq_false_iff, beq_eq_false_iff_ne, ne_eq, decide_eq_false_iff_not, Nat.not_lt]
+    exact h1
+  rw [this]
+  simp
+
+/-- a pool of 2 task workers (taskqueue.Startup(2, ...)), per-peer limit 100: peer 0 stops acknowledging,
+    two of its requests are being executed and both executors wait for memory; peer 1's request is
+    accepted and queued -/
+def poolScript : List Action :=
+  [.primer 0, .extract 0, .primer 1, .extract 1,
+   .recv 0 (.new 0 (cfgA 3)), .mgr, .recv 0 (.new 1 (cfgA 3)), .mgr,
+   .net 0 true,                                   -- the last acknowledgement peer 0 ever sends
+   .pop 0 0, .mgr, .wstep 0 0, .pop 0 1, .mgr, .wstep 1 0,
+   .wstep 0 0, .extract 0,                        -- worker 0: block 0 (88 bytes) reserved and in flight
+   .wstep 1 0,                                    -- worker 1: 88 + 88 > 100, waits for memory
+   .wstep 0 0,                                    -- worker 0: its second block waits too
+   .recv 1 (.new 2 (cfgA 1)), .mgr]               -- peer 1's request: accepted, task pending
+
+def poolCfg : Cfg := { limit := 100, nWorkers := 2 }
+def poolStalled : State := run (init poolCfg) poolScript
+
+theorem thawAll_noop (s : State) (h : s.queues.all (fun q => q.freeze == 0) = true) : thawAll s = s := by
+  unfold thawAll
+  have hq : s.queues.map (fun q => { q with freeze := q.freeze - (q.freeze + 1) / 2 }) = s.queues := by
+    conv => rhs; rw [← List.map_id s.queues]
+    apply List.map_congr_left
+    intro q hq
+    have : q.freeze = 0 := by simpa using List.all_eq_true.1 h q hq
+    cases q
+    simp_all
+  rw [hq]
+
+theorem mgrStep_none (s : State) (h : (s.park.isNone && s.mailbox.isEmpty) = true) : mgrStep s = none := by
+  simp only [Bool.and_eq_true, Option.isNone_iff_eq_none, List.isEmpty_iff] at h
+  unfold mgrStep
+  rw [h.1, h.2]
+
+/-- everything that is evaluated on the concrete state, in one go -/
+def poolFacts (s : State) : Bool :=
+  freshRun (init poolCfg) poolScript &&
+  (s.park.isNone && s.mailbox.isEmpty) &&
+  ((getQ s 1).pending == [(2, 1)]) && ((getQ s 1).freeze == 0) &&
+  (s.nWorkers != 0 && decide (s.nWorkers ≤ liveWorkers s)) &&
+  s.queues.all (fun q => !(q.pending.isEmpty && q.active.isEmpty)) &&
+  s.workers.all (fun x => inert x.phase) &&
+  s.mqs.all (fun q => q.inflight.isSome || (match q.next with | none => true | some b => b.empty)) &&
+  s.mqs.all (fun q => q.pubQ.isEmpty) &&
+  s.queues.all (fun q => q.freeze == 0)
+
+theorem poolFacts_hold : poolFacts poolStalled = true := by decide
+
+/-- **C25.pool_exhaustion_counterexample** (known finding `worker-pool-parked-on-peer-reservation`): a
+    reachable state in which the manager is NOT parked and its mailbox is empty, peer 1's task is pending
+    and its peer is not frozen, yet no internal action of any process is enabled (or it is a no-op):
+    both workers of the pool wait inside reservations of the stalled peer 0, so no worker can pop.  Only
+    peer 0's network (`net 0 _`) can ever change that.  Outside the class
+    `manager-blocked-on-peer-reservation`; replayed on the REAL fixed pool by the `pool` stream. -/
+theorem pool_exhaustion_counterexample :
+    ReachableFresh poolCfg poolStalled ∧ poolStalled.park = none ∧ poolStalled.mailbox = [] ∧
+    (getQ poolStalled 1).pending = [(2, 1)] ∧ (getQ poolStalled 1).freeze = 0 ∧
+    (∀ a, Internal a → step poolStalled a = none ∨ step poolStalled a = some poolStalled) := by
+  have hf := poolFacts_hold
+  simp only [poolFacts, Bool.and_eq_true] at hf
+  obtain ⟨⟨⟨⟨⟨⟨⟨⟨⟨h1, h2⟩, h3⟩, h4⟩, h5⟩, h6⟩, h7⟩, h8⟩, h9⟩, h10⟩ := hf
+  have h2' := h2
+  simp only [Option.isNone_iff_eq_none, List.isEmpty_iff] at h2'
+  refine ⟨reachableFresh_run ReachableFresh.init _ h1, h2'.1, h2'.2, by simpa using h3, by simpa using h4, ?_⟩
+  intro a ha
+  cases a with
+  | mgr => left; exact mgrStep_none _ (by simpa using h2)
+  | pop p id => left; exact popTask_none_pool _ p id (by simpa using h5)
+  | reap p => left; exact reap_none _ p h6
+  | wstep w pick => left; exact wstep_none _ w pick h7
+  | extract p => left; exact extract_none _ p h8
+  | pub p => left; exact pubStep_none _ p h9
+  | thaw => right; show some (thawAll poolStalled) = some poolStalled; rw [thawAll_noop _ h10]
+  | recv p r => exact absurd ha (by simp [Internal])
+  | api c => exact absurd ha (by simp [Internal])
+  | net p ok => exact absurd ha (by simp [Internal])
+  | primer p => exact absurd ha (by simp [Internal])
+
+/-- the lasso for the pool: staying in `poolStalled` forever is a weakly fair execution on which peer
+    1's queued request is never executed -/
+theorem pool_exhaustion_fair_execution :
+    Exec ⟨step⟩ (fun _ => poolStalled) ∧ WF1 ⟨step⟩ Internal (fun _ => poolStalled) ∧
+    ¬ LeadsTo (fun _ => poolStalled) (fun s => (getQ s 1).pending = [(2, 1)])
+               (fun s => (getQ s 1).pending = []) := by
+  refine ⟨fun _ => Or.inl rfl, ?_, ?_⟩
+  · intro a ha i hen
+    rcases pool_exhaustion_counterexample.2.2.2.2.2 a ha with h | h
+    · have := hen i (Nat.le_refl _)
+      simp [Sys.enabled, h] at this
+    · exact ⟨i, Nat.le_refl _, h⟩
+  · intro hl
+    obtain ⟨j, _, hj⟩ := hl 0 pool_exhaustion_counterexample.2.2.2.1
+    have := pool_exhaustion_counterexample.2.2.2.1
+    simp only at hj
+    rw [this] at hj
+    cases hj
 
 /-- the responder as a transition system of the temporal layer -/
 def sys : Sys State Action := ⟨step⟩
@@ -372,7 +479,7 @@ theorem partial_handled (σ : Nat → State) (hex : Exec sysNE σ) (hwf : WFAll 
 
 /-- non-vacuity of `partial_handled`: the hypothesis `Pending` holds in a non-trivial reachable state
     (two requests waiting in the mailbox) -/
-example : Pending 2 (run (init 100) [.recv 0 (.new 0 (cfgA 3)), .recv 1 (.new 1 (cfgA 2))]) := by
+example : Pending 2 (run (init { limit := 100 }) [.recv 0 (.new 0 (cfgA 3)), .recv 1 (.new 1 (cfgA 2))]) := by
   refine ⟨rfl, ?_, by decide⟩
   intro m hm
   have : m ∈ [Msg.processRequests 0 (.new 0 (cfgA 3)), Msg.processRequests 1 (.new 1 (cfgA 2))] := hm
@@ -381,8 +488,8 @@ example : Pending 2 (run (init 100) [.recv 0 (.new 0 (cfgA 3)), .recv 1 (.new 1 
 
 /-- non-vacuity of `partial_never_parks`: a non-trivial state reachable under its hypothesis (a request
     without hook data is registered and queued) -/
-example : ∃ s, ReachableNE 100 s ∧ s.table ≠ [] := by
-  refine ⟨run (init 100) [.recv 0 (.new 0 (cfgA 3)), .mgr], ?_, by decide⟩
+example : ∃ s, ReachableNE { limit := 100 } s ∧ s.table ≠ [] := by
+  refine ⟨run (init { limit := 100 }) [.recv 0 (.new 0 (cfgA 3)), .mgr], ?_, by decide⟩
   exact ReachableNE.step (a := .mgr) (ReachableNE.step (a := .recv 0 (.new 0 (cfgA 3))) ReachableNE.init trivial rfl)
     (by show msgNoExt _ = true; rfl) rfl
 
